@@ -210,7 +210,12 @@ func verifHistory(r *vrand.Rand) (steps []verifStep, mode string, wrap, nsJitter
 				case x < 75:
 					st.act = "stall"
 				case x < 83 && !wrap:
-					c += uint64(1)<<uint(r.Range(32, 50)) + uint64(r.Intn(1000))
+					if r.Chance(1, 4) && c < 1<<61 {
+						// a very large (still legitimate) increase: above 2^53 the increase times 1000 no longer fits an int64
+						c += uint64(1)<<uint(r.Range(51, 60)) + uint64(r.Intn(1000))
+					} else {
+						c += uint64(1)<<uint(r.Range(32, 50)) + uint64(r.Intn(1000))
+					}
 					st.act = "jump"
 				case x < 92 && !wrap && c > 1:
 					// reset to a smaller value (both below 2^62)
